@@ -50,8 +50,92 @@ def r6_5(ctx, rc):
                      'absent version must read as None', G.file, key=key)
 
 
+def _flows_to_version_field(ctx, g, p, depth=0):
+    """Parameter p of Cache function g ends up in the field read by
+    get_func_version."""
+    from .c11 import _param_field
+    prog = ctx.prog
+    C = ctx.R.cache
+    G = ctx.E.func(C + '.get_func_version')
+    vattrs = {n.attr for n in ast.walk(G.node)
+              if isinstance(n, ast.Attribute) and isinstance(
+                  n.value, ast.Name) and n.value.id == G.self_name}
+    if g.name == '__init__':
+        return _param_field(ctx, g.cls, p) in vattrs
+    if depth > 4:
+        return False
+    for call in prog.calls_in(g):
+        for h in prog.resolve_call(call, g):
+            if isinstance(h, Func) and (h.cls == C or h.is_ctor_call):
+                b = prog.bind_args(call, h)
+                for p2, a in b.items():
+                    if isinstance(a, ast.Name) and a.id == p and \
+                            _flows_to_version_field(ctx, h, p2, depth + 1):
+                        return True
+    return False
+
+
+def r6_4(ctx, rc):
+    """The version maps given to the caches of a build are the sanitised
+    ones (a private JSON snapshot): the comparison partner read from the
+    cache file is canonical JSON, and the caller keeps no handle on the
+    map the build compares with."""
+    R = ctx.R
+    prog = ctx.prog
+    C = R.cache
+    n = 0
+    for F in prog.funcs.values():
+        if F.cls != R.builder:
+            continue
+        for call in prog.calls_in(F):
+            for g in prog.resolve_call(call, F):
+                if not (isinstance(g, Func) and (
+                        g.cls == C or (g.is_ctor_call and
+                                       g.cls_for_ctor == C))):
+                    continue
+                b = prog.bind_args(call, g)
+                for p, a in b.items():
+                    if isinstance(a, list) or not _flows_to_version_field(
+                            ctx, g, p):
+                        continue
+                    n += 1
+                    cn = ctx.H.node_of(F, call)[0]
+                    org = ctx.H.origins(
+                        a, F, cn, stop=lambda nm: nm == 'JsonUtil.sanitize')
+                    key = 'versions given to %s in %s' % (
+                        g.qualname, F.qualname)
+                    bad = {o for o in org if not (
+                        o[0] == 'call' and o[1] == 'JsonUtil.sanitize')}
+                    if bad or not org:
+                        rc.violation(
+                            'versions-raw | %s | %s' % (F.qualname,
+                                                        g.qualname),
+                            'the version map handed to %s does not (only) '
+                            'come from JsonUtil.sanitize: %s - it is '
+                            'compared with canonical JSON from the cache '
+                            'file and stays shared with the caller' % (
+                                g.qualname, sorted(str(o[:3]) for o in bad)),
+                            prog.loc(F, call), key=key)
+                    else:
+                        rc.ok({'call': key, 'origin': 'JsonUtil.sanitize'},
+                              key=key)
+    if n < 2:
+        raise AnalysisError('only %d version arguments found' % n)
+
+
+def r6_6(ctx, rc):
+    """Versions are compared with JSON equality: its structural rules
+    (R18.3 bool discrimination, R18.5 lengths and key presence)."""
+    from . import c18
+    c18.r18_3(ctx, rc)
+    c18.r18_5(ctx, rc)
+
+
 RULES = [
     ('R6.1', 'version equality guards every complex reuse decider', r6_1),
     ('R6.3', 'operation-version equality guards the simple decider', r6_3),
+    ('R6.4', 'the caches are given sanitised version maps', r6_4),
     ('R6.5', 'versions are persisted verbatim and read back', r6_5),
+    ('R6.6', 'JSON equality: bool discrimination, lengths, key presence',
+     r6_6),
 ]
